@@ -41,6 +41,9 @@ pub fn af_stuffing(n: usize, pcr: Option<u64>, rng: &mut Rng) -> Vec<u8> {
         a[5] = (((base & 1) as u8) << 7) | 0x7e | ((ext >> 8) as u8 & 1); a[6] = ext as u8;
     } }
     if rng.chance(1, 4) && n >= 1 { a[0] |= 0x40; }
+    // discontinuity_indicator / elementary_stream_priority_indicator: flags that need no further bytes
+    if rng.chance(1, 3) && n >= 1 { a[0] |= 0x80; }
+    if rng.chance(1, 6) && n >= 1 { a[0] |= 0x20; }
     a
 }
 
